@@ -193,9 +193,10 @@ func Plans(thorough bool) []wprog.Plan {
 		// the whole configuration matrix, one operation, one non-default choice
 		add(wprog.Configs(wprog.AllVersions, tf, tf, pwAll), 1, 1)
 		// representative configurations, longer programs
-		add([]wprog.Config{{V: pdf.V1_4, Seekable: true}, {V: pdf.V1_7, Seekable: false}, {V: pdf.V1_5, Human: true, Seekable: false}}, 2, 1)
-		add([]wprog.Config{encRep[1], encRep[2], encRep[5], encRep[6]}, 2, 1) // one per cipher, seekable alternating
-		add([]wprog.Config{{V: pdf.V1_7, Seekable: true}, {V: pdf.V1_4, Seekable: false}}, 3, 0)
+		add([]wprog.Config{{V: pdf.V1_7, Seekable: false}, {V: pdf.V1_4, Seekable: true, User: "u", Owner: "o"}}, 2, 1)
+		add(rep4, 2, 0)
+		add([]wprog.Config{{V: pdf.V1_5, Human: true, Seekable: false}, {V: pdf.V1_3, Human: true, Seekable: true}}, 2, 0)
+		add(encRep, 2, 0)
 	} else {
 		add(wprog.Configs(wprog.AllVersions, tf, tf, pwAll), 2, 1)
 		add(rep4, 3, 1)
